@@ -294,6 +294,52 @@ def validate_traces(monitor, cfg, trace_file, scratch, timeout=1800, env=None, h
     return info
 
 
+def validate_traces_chunked(monitor, cfg, trace_file, scratch, is_start, per_chunk=1500, parallel=4, timeout=1800, heap="6g", line_key="l"):
+    """validate_traces on a long concatenation of traces, in pieces of per_chunk traces (is_start(line) says where a trace
+    begins) - TLC holds the whole file in memory. Violations are merged (their line numbers made absolute)."""
+    import concurrent.futures as cf
+    pieces, cur, ntr, first_line, lineno = [], None, 0, 1, 0
+    with open(trace_file) as f:
+        for line in f:
+            lineno += 1
+            if is_start(line):
+                if cur is None or ntr >= per_chunk:
+                    if cur is not None:
+                        cur.close()
+                    path = scratch.path("%s.part%d" % (os.path.basename(trace_file), len(pieces)))
+                    cur, ntr = open(path, "w"), 0
+                    pieces.append((path, lineno - 1))
+                ntr += 1
+            if cur is None:
+                path = scratch.path("%s.part0" % os.path.basename(trace_file))
+                cur = open(path, "w")
+                pieces.append((path, 0))
+            cur.write(line)
+    if cur is not None:
+        cur.close()
+    if len(pieces) <= 1:
+        return validate_traces(monitor, cfg, trace_file, scratch, timeout=timeout, heap=heap)
+    with cf.ThreadPoolExecutor(max_workers=parallel) as ex:
+        infos = list(ex.map(lambda p: validate_traces(monitor, cfg, p[0], scratch, timeout=timeout, heap=heap), pieces))
+    out = dict(consumed_ok=all(i["consumed_ok"] for i in infos), violations=[], wall_s=round(sum(i["wall_s"] for i in infos), 1),
+               done=[d for i in infos for d in i["done"]], rc=max(i["rc"] for i in infos), pieces=len(pieces),
+               stats=dict(generated=sum(i["stats"]["generated"] for i in infos), distinct=sum(i["stats"]["distinct"] for i in infos),
+                          depth=max(i["stats"]["depth"] for i in infos)))
+    for (path, off), i in zip(pieces, infos):
+        if not i["consumed_ok"] and "tail" not in out:
+            out["tail"] = i.get("tail", "")
+        for v in i["violations"]:
+            if isinstance(v, dict) and isinstance(v.get(line_key), int):
+                v = dict(v)
+                v[line_key] += off
+            out["violations"].append(v)
+        try:
+            os.remove(path)
+        except OSError:
+            pass
+    return out
+
+
 # ------------------------------------------------------------------------------------------------ findings
 
 def replay_behaviours():
